@@ -153,6 +153,10 @@ def timingLine (c : TimingCase) : Sx :=
 def listenLine (line : String) : String :=
   match parse line with
   | none => "(model-parse-error)"
+  | some (.list [.atom "listen-activated", _]) =>
+    -- the service is reached through the inherited socket, leaves through its idle timeout, and
+    -- `Listener::drop` does not unlink a path it did not create (C15_unlink)
+    render (.list [.atom "aobs", .atom "t", .atom "t", ofBool (!unlinksOnDrop (.unixPath false))])
   | some sx =>
     match parseConcCase sx with
     | some c => render (concLine c)
@@ -243,6 +247,14 @@ def listenPred (prop : String) (caseLine obsLine : String) : String :=
             else concPred c (items.filter fun x => match x with | .list (.atom "c" :: _) => true | _ => false)
           | _ => some "unparsable-observation"
         | none =>
+          match cs, os with
+          | .list [.atom "listen-activated", _], .list [.atom "aobs", served, exited, exists_] =>
+            let isT : Sx → Bool := fun x => match x with | .atom "t" => true | _ => false
+            if !isT served then some "activated-service-did-not-serve-the-inherited-socket"
+            else if !isT exited then some "activated-service-did-not-leave-through-its-idle-timeout"
+            else if !isT exists_ then some "socket-path-not-created-by-the-service-was-removed"
+            else none
+          | _, _ =>
           match parseTimingCase cs, parseTimingObs os with
           | some c, some o => if prop == "C15" then timingPred c o else some "timing-case-for-another-property"
           | _, _ => some "unparsable-case-or-observation"
